@@ -6,7 +6,7 @@ from tools.lib import Case, f2hex, hex2f, same_float_tok
 ID = 'C18'
 EPS = Fraction(1, 2 ** 52)
 RULE = ('samples of length 0..200 by class (empty, singleton, small integers, uniform +-1e6, clustered far from 0, '
-        'all-equal, positive for the geometric mean, mixed magnitudes) x {mean, geom, sd population, sd sample}; '
+        'all-equal, positive for the geometric mean, long samples near 1e6 / 1e-6, mixed magnitudes) x {mean, geom, sd population, sd sample}; '
         'distinct = distinct case line; non-trivial = sample has >= 2 elements that are not all equal')
 TRUSTED = ['extraction of the float instance (ExtrOcamlBasic, ExtrOCamlFloats, ExtrOCamlInt63) and ocaml/driver.ml',
            'Rust harness harness/src/c18.rs', 'exact-rational oracle tools/props/c18.py',
@@ -23,6 +23,11 @@ def samples(rng, tier):
         out.append(('singleton', [v]))
     for n in (2, 3, 5, 8):
         out.append(('allequal', [rng.choice([1.0, 0.1, 7.25, 1e6, 123456.789])] * n))
+    # long samples at the ends of the value range: the running product of the geometric mean leaves f64's range
+    for n in (30, 52, 53, 60, 64, 65, 100, 200):
+        out.append(('bigpositive', [rng.uniform(1e5, 1e6) for _ in range(n)]))
+        out.append(('smallpositive', [rng.uniform(1e-6, 1e-5) for _ in range(n)]))
+        out.append(('bigpositive', [1e6] * n))
     for _ in range(n_rand):
         cls = rng.choice(['smallint', 'uniform', 'clustered', 'positive', 'mixed', 'allequal', 'tiny'])
         n = rng.choice([1, 2, 3, 4, 5, 7, 10, 20, 50, 100, 200, rng.randint(1, 200)])
